@@ -13,7 +13,15 @@ def _gx(T, nm, iscsd=True):
     return to_x(v)
 
 
+def check_n_is_segment_count(ctx):
+    """the n of every error formula is the plan's navg: on every scheduler path navg = K = number of generated starts."""
+    from ..sched import NAMES, for_paths, check_segmentation
+    for name in NAMES:
+        for_paths(ctx, ctx.repo, name, lambda A, R, tr: check_segmentation(A, R, rules=("R1",), prefix=tr))
+
+
 def check(ctx):
+    check_n_is_segment_count(ctx)
     T = Table(ctx.repo); ref = reference()
     ctx.analysed(GETATTR)
     where = ctx.repo.where(GETATTR, ctx.repo.get(GETATTR))
